@@ -37,4 +37,22 @@ theorem glat_gloc_switch_together (spec : Nat) :
   simp only [glatThreshold, glocThreshold, glatNew, glatOld, glocNew, glocOld]
   by_cases h : spec ≥ 262145 <;> simp [h]
 
+/-- Either the version has the pass-constraint field, or the request was explicit (and then no pass constraint is
+    written: they are moved into the rules). T1 obligation: holds for the numbers found in the source. -/
+theorem afterPassConstraints_ok (req : Nat) (u h : Bool) (hh : h = true) :
+    fmtPassConstraints ≤ afterPassConstraints req u h ∨ (u = true ∧ afterPassConstraints req u h = req) := by
+  unfold afterPassConstraints fmtPassConstraints
+  subst hh
+  simp only [passConstraintRequestLimit, passConstraintVersion]
+  by_cases hr : req ≤ 196608
+  · cases u <;> simp [hr]
+  · left; simp [hr]; omega
+
+theorem afterPassConstraints_ge (req : Nat) (u h : Bool) : req ≤ afterPassConstraints req u h := by
+  unfold afterPassConstraints
+  simp only [passConstraintRequestLimit, passConstraintVersion]
+  by_cases hc : h = true ∧ req ≤ 196608 ∧ ¬u = true
+  · rw [if_pos hc]; omega
+  · rw [if_neg hc]; omega
+
 end Grc.Ver
